@@ -18,7 +18,7 @@ EXPLANATION = (
     'when the whole parity class is in use; (d) every request entry point tests the incoming id against the table '
     'before it registers a handler, and the test raises the REJECTED error without touching the table. '
     'Not decided: nothing essential - the clauses hold per operation.')
-EXPLANATION_ADDED = ('(e) a new request is never offered to the stream table before its handle_* method (shared routing rule) and the table is written only after id 0 was refused; (f) the successor of the id cursor visits every id of its parity class: the masked form (cursor + 2) & (2^31-1), or advance-compare-wrap whose largest kept value is the largest id of the class for both parities and whose wrap target is the first id; (g) the allocator object is created by the per-connection reset only, never by stop_all_streams(), which applications call on live connections.')
+EXPLANATION_ADDED = ('(e) a new request is never offered to the stream table before its handle_* method (shared routing rule) and the table is written only after id 0 was refused; (f) the successor of the id cursor visits every id of its parity class: the masked form (cursor + 2) & (2^31-1), or advance-compare-wrap whose largest kept value is the largest id of the class for both parities and whose wrap target is the first id; (g) the allocator object is created by the per-connection reset only, never by stop_all_streams(), which applications call on live connections. (round 15, shared C08.l) a stream requester the peer\'s COMPLETE or ERROR has ended is inert: a late cancel() would release by id whatever request holds that id after wrap-around.')
 EXPLANATION = EXPLANATION.replace(' Not decided', ' ' + EXPLANATION_ADDED + ' Not decided', 1) \
     if ' Not decided' in EXPLANATION else EXPLANATION + ' ' + EXPLANATION_ADDED
 ASSUMPTIONS = COMMON_ASSUMPTIONS
@@ -767,6 +767,13 @@ def rule_finished_streams_are_not_cancelled_again(ctx):
     from .c20 import rule_d as c20d
     c20d(ctx)
 
+def rule_ended_requesters_release_nothing(ctx):
+    """(shared C08.l)  finish_stream releases by id: a requester that the peer's COMPLETE or ERROR has ended must be
+    inert from then on, because a late cancel() on its subscription would send CANCEL for, and unregister, whatever
+    stream holds that id by then - after wrap-around a live request, whose id the allocator then hands out again.  The
+    requester notes the end of its stream on every terminal branch (rules/c08.py)."""
+    from .c08 import rule_ended_stream_is_silent
+    rule_ended_stream_is_silent(ctx)
 
 
-RULES = [('C13.a', rule_a), ('C13.b', rule_b), ('C13.c', rule_c), ('C13.d', rule_d), ('C13.d+C13.e', rule_e), ('C13.f', rule_f), ('C13.g', rule_g), ('C12.l', rule_error_conversion), ('C13.h', rule_h), ('C13.i', rule_i), ('C13.j', rule_j), ('C20.d', rule_finished_streams_are_not_cancelled_again)]
+RULES = [('C13.a', rule_a), ('C13.b', rule_b), ('C13.c', rule_c), ('C13.d', rule_d), ('C13.d+C13.e', rule_e), ('C13.f', rule_f), ('C13.g', rule_g), ('C12.l', rule_error_conversion), ('C13.h', rule_h), ('C13.i', rule_i), ('C13.j', rule_j), ('C20.d', rule_finished_streams_are_not_cancelled_again), ('C08.l', rule_ended_requesters_release_nothing)]
